@@ -803,6 +803,14 @@ func (ms *monitorState) bookHolds(kt *keyTrack, after *MKey, ptrs []*Lock, now t
 		case ptrs == nil:
 		case old == nil || prev == nil:
 			newHolds[p] = &holdTrack{ref: now, since: now, everMs: h.EFlag&efMs != 0}
+			// C02: while a LockId holds a key, locking it again adds a level to that hold (at most Rcount
+			// times) or is refused: it never becomes a second hold of its own
+			for j := range kt.mk.Holders {
+				if kt.mk.Holders[j].Lid == h.Lid {
+					ms.violate("C02", "same_lockid_holds_twice", "key %d: l%d became a holder of its own while that LockId already holds the key (depth %d, Rcount of the new request %d): %s", keyIndex(kt.id.key), lidIndex(h.Lid), kt.mk.Holders[j].Depth, h.Rcount, kt.mk.sig())
+					break
+				}
+			}
 			// C01: admission of a new holder against the state before (independent of the model's
 			// own bookkeeping: uses only the observed snapshots)
 			ms.checkAdmission(kt, &kt.mk, &h)
